@@ -365,6 +365,48 @@ def macro_expr(rng: random.Random, depth: int, scope: List[Tuple[str, str]], blo
     return ["map", x, rng_e, macro_expr(rng, depth - 1, [(x, kind)] + scope, blocked)]
 
 
+PKG_NAMES = ["p", "q", "r", "s"]
+
+
+def deep_package_cases(rng: random.Random, n: int):
+    """package paths of ANY depth (1..5 names, names may repeat), the head identifier bound at an arbitrary
+    subset of the package levels (root, first name, every intermediate level, full path) as a scalar, a
+    dotted name or a map; the reference must mean the first level from the longest that binds the head.
+    (The exhaustive family above only has the depths 0, 1, 2.)"""
+    for i in range(n):
+        depth = 3 + i % 3 if i < (2 * n) // 3 else rng.randint(1, 5)
+        if rng.random() < 0.25:
+            pkg = tuple(rng.choice(PKG_NAMES[:2]) for _ in range(depth))       # repeated names: p.p.q, p.q.p
+        else:
+            pkg = tuple(PKG_NAMES[j % 4] for j in range(depth))
+        lv = list(levels(pkg))                                                # longest first, root last
+        k = rng.randint(1, min(3, len(lv)))
+        # bias to the intermediate levels (neither the full path, the first name, nor the root)
+        inter = lv[1:-2] if len(lv) > 3 else lv
+        chosen = {rng.choice(inter)} if inter else set()
+        while len(chosen) < k:
+            chosen.add(rng.choice(lv))
+        binds = []
+        for j, L in enumerate(sorted(chosen, key=len)):
+            base = 7000 + 100 * len(L) + 10 * j
+            form = rng.choice(["scalar", "dotted", "map", "dotted2"])
+            if form == "scalar":
+                binds.append([".".join(L + ("a",)), base])
+            elif form == "dotted":
+                binds.append([".".join(L + ("a", "b")), base + 1])
+            elif form == "dotted2":
+                binds.append([".".join(L + ("a", "b", "c")), base + 2])
+            else:
+                binds.append([".".join(L + ("a",)), {"b": {"c": base + 3}, "c": base + 4}])
+        if rng.random() < 0.3:
+            binds.append([".".join(rng.choice(lv) + ("z",)), 1])               # an unrelated neighbour
+        if rng.random() < 0.3:
+            rng.shuffle(binds)
+        for ref in rng.sample(["a", "a.b", "a.b.c", "a.c", "z"], 2):
+            for rn in ("I", "C"):
+                yield {"kind": "deep", "runner": rn, "pkg": ".".join(pkg), "decls": [], "binds": binds, "e": ["ref", ref]}
+
+
 MACRO_BINDS = [
     [["x", 100], ["y", {"k": 201}], ["a", 300]],
     [["x", 100], ["y", {"k": 201}], ["a.b", 310]],
@@ -402,6 +444,8 @@ class C12(Prop):
             cfgs = rng.sample(cfgs, 26)
         for cfg in cfgs:
             cases += list(config_cases(cfg, rng if rng.random() < 0.3 else None))
+        # package paths of any depth, the head bound at arbitrary (intermediate) levels
+        cases += list(deep_package_cases(rng, 48 if quick else 3000))
         # declarations: same names as bindings (must not matter), and declared-only names (model only)
         for _ in range(40 if quick else 1500):
             cfg = rng.choice(list(all_configs())) if not quick else rng.choice(cfgs)
